@@ -50,6 +50,12 @@ def FreshAll : List Nat → List Tx → Prop
   | seen, tx :: rest =>
     tx.nodes.Nodup ∧ (∀ x ∈ tx.nodes, x ∉ seen) ∧ 0 ∉ tx.nodes ∧ FreshAll (seen ++ tx.nodes) rest
 
+instance decFreshAll : ∀ (seen : List Nat) (txs : List Tx), Decidable (FreshAll seen txs)
+  | _, [] => inferInstanceAs (Decidable True)
+  | seen, tx :: rest =>
+    have := decFreshAll (seen ++ tx.nodes) rest
+    inferInstanceAs (Decidable (tx.nodes.Nodup ∧ (∀ x ∈ tx.nodes, x ∉ seen) ∧ 0 ∉ tx.nodes ∧ FreshAll (seen ++ tx.nodes) rest))
+
 theorem freshTx_of {T : List Tx} {seen : List Nat} {tx : Tx} (hnd : (allNodes T).Nodup)
     (hsub : ∀ x ∈ allNodes T, x ∈ seen) (h1 : tx.nodes.Nodup) (h2 : ∀ x ∈ tx.nodes, x ∉ seen) (h3 : 0 ∉ tx.nodes) :
     FreshTx T tx where
@@ -113,6 +119,9 @@ def Round.txs (r : Round) : List Tx :=
     cut it off: C17's repair) -/
 def TailCond (cfg : Cfg) (fs : FS) (r : Round) : Prop :=
   cfg.tailTolerant = true ∨ validLen fs.wf = fs.wf.length ∨ r.txs = []
+
+instance (cfg : Cfg) (fs : FS) (r : Round) : Decidable (TailCond cfg fs r) :=
+  inferInstanceAs (Decidable (cfg.tailTolerant = true ∨ validLen fs.wf = fs.wf.length ∨ r.txs = []))
 
 /-- what an incarnation may do to the content -/
 def StepT (T : List Tx) (o : Spec.RoundObs) (T' : List Tx) : Prop :=
@@ -222,6 +231,18 @@ def HistOK (cfg : Cfg) : FS → List Nat → List Round → Prop
   | fs, seen, r :: rest =>
     TailCond cfg fs r ∧ FreshAll seen r.txs ∧ HistOK cfg (r.after cfg fs) (seen ++ r.txs.flatMap (·.nodes)) rest
 
+/-- only the freshness half of `HistOK` (what every caller of the API guarantees) -/
+def FreshHist : List Nat → List Round → Prop
+  | _, [] => True
+  | seen, r :: rest => FreshAll seen r.txs ∧ FreshHist (seen ++ r.txs.flatMap (·.nodes)) rest
+
+instance decHistOK (cfg : Cfg) : ∀ (fs : FS) (seen : List Nat) (rounds : List Round), Decidable (HistOK cfg fs seen rounds)
+  | _, _, [] => inferInstanceAs (Decidable True)
+  | fs, seen, r :: rest =>
+    have := decHistOK cfg (r.after cfg fs) (seen ++ r.txs.flatMap (·.nodes)) rest
+    inferInstanceAs (Decidable (TailCond cfg fs r ∧ FreshAll seen r.txs ∧
+      HistOK cfg (r.after cfg fs) (seen ++ r.txs.flatMap (·.nodes)) rest))
+
 theorem rounds_safe {cfg : Cfg} (hsync : cfg.syncSlot = true) :
     ∀ (rounds : List Round) (T : List Tx) (fs : FS) (seen : List Nat),
       Closed T fs → (∀ x ∈ allNodes T, x ∈ seen) → HistOK cfg fs seen rounds →
@@ -245,5 +266,69 @@ theorem rounds_safe {cfg : Cfg} (hsync : cfg.syncSlot = true) :
         simp only at hi
         subst hi
         exact Spec.Admissible.survived hadm
+
+/-! ### acknowledged commits are inside every admissible list -/
+
+theorem admissible_prefix {T0 T : List Tx} {os : List Spec.RoundObs} (h : Spec.Admissible T0 os T) : T0 <+: T := by
+  induction h with
+  | done T => exact List.prefix_refl T
+  | lost _ ih => exact List.IsPrefix.trans (List.prefix_append _ _) ih
+  | survived _ ih => exact List.IsPrefix.trans (by rw [List.append_assoc]; exact List.prefix_append _ _) ih
+
+theorem admissible_acked {T0 T : List Tx} {os : List Spec.RoundObs} (h : Spec.Admissible T0 os T) :
+    ∀ o ∈ os, ∀ tx ∈ o.acked, tx ∈ T := by
+  induction h with
+  | done T => intro o ho; simp at ho
+  | @lost T T' a i rest h' ih =>
+    intro o ho tx htx
+    rcases List.mem_cons.mp ho with rfl | ho
+    · exact (admissible_prefix h').subset (List.mem_append_right _ htx)
+    · exact ih o ho tx htx
+  | @survived T T' a tx' rest h' ih =>
+    intro o ho tx htx
+    rcases List.mem_cons.mp ho with rfl | ho
+    · exact (admissible_prefix h').subset (List.mem_append_left _ (List.mem_append_right _ htx))
+    · exact ih o ho tx htx
+
+theorem mem_allNodes {T : List Tx} {tx : Tx} (h : tx ∈ T) : ∀ x ∈ tx.nodes, x ∈ allNodes T := by
+  intro x hx; simp only [allNodes, List.mem_flatMap]; exact ⟨tx, h, hx⟩
+theorem mem_allEdges {T : List Tx} {tx : Tx} (h : tx ∈ T) : ∀ x ∈ tx.edges, x ∈ allEdges T := by
+  intro x hx; simp only [allEdges, List.mem_flatMap]; exact ⟨tx, h, hx⟩
+theorem mem_allProps {T : List Tx} {tx : Tx} (h : tx ∈ T) : ∀ x ∈ tx.props, x ∈ allProps T := by
+  intro x hx; simp only [allProps, List.mem_flatMap]; exact ⟨tx, h, hx⟩
+
+/-! ### what the next open shows -/
+
+theorem spec_run_eq (T : List Tx) : Spec.run T = ⟨allNodes T, allEdges T, allProps T⟩ := by
+  induction T with
+  | nil => rfl
+  | cons tx T ih => simp [Spec.run, ih, allNodes, allEdges, allProps]
+
+theorem content_of_inv {T : List Tx} {fs : FS} {m : Mem} {cs : List CTx} {c : Nat} (h : InvOpen T fs m cs c) :
+    Spec.Content.same (content m fs.pv) (Spec.run T) := by
+  rw [spec_run_eq]
+  refine ⟨h.mexts, ?_, ?_⟩
+  · intro e
+    simp only [content, h.msegs, List.flatMap_nil, List.nil_append, h.mruns]
+    exact h.log.edges e
+  · intro q
+    simp only [content, h.mroot, if_true, List.append_nil, h.mruns]
+    exact h.log.props q
+
+/-- **C01 + C02 over all histories of this shape**: whatever the incarnations did and wherever
+    they died, the next open succeeds and shows the content of an admissible transaction list:
+    the initial one, every acknowledged commit, and — entirely or not at all — each commit that
+    was in flight at a death. -/
+theorem crash_recover {cfg : Cfg} (hsync : cfg.syncSlot = true) (rounds : List Round) (T0 : List Tx) (fs0 : FS)
+    (seen : List Nat) (hc : Closed T0 fs0) (hsub : ∀ x ∈ allNodes T0, x ∈ seen) (hok : HistOK cfg fs0 seen rounds) :
+    ∃ T m fs', Spec.Admissible T0 (rounds.map Round.obs) T ∧
+      recover cfg (afterRounds cfg fs0 rounds) = .ok (m, fs') ∧
+      Spec.Content.same (content m fs'.pv) (Spec.run T) := by
+  obtain ⟨T, hadm, hcl⟩ := rounds_safe hsync rounds T0 fs0 seen hc hsub hok
+  obtain ⟨hfail, _, _, cs, c, hinv, _⟩ := open_safe (cfg := cfg) hsync hcl.flat.pj hcl.flat.quiet hcl.rep
+  obtain ⟨o1, o2, o3⟩ := run_none (openA cfg (afterRounds cfg fs0 rounds).pv (afterRounds cfg fs0 rounds).wf)
+    (afterRounds cfg fs0 rounds) {}
+  refine ⟨T, _, _, hadm, ?_, content_of_inv hinv⟩
+  simp only [recover, o3, hfail, o1, o2]
 
 end Nervus.Crash
